@@ -185,3 +185,140 @@ Proof. vm_compute. repeat split; reflexivity. Qed.
    with all four children absent the callback returns early and a stale parent file stays *)
 Example early_return_keeps_stale_parent : ex_stale_parent_survives = true.
 Proof. vm_compute. reflexivity. Qed.
+
+(* ======================================================================================
+   Composition with C01 (parallel walk) and C13 (enumeration): parallel = serial.
+   Proofs in Proofs/GlueCascade.v.  Vocabulary:
+   [spec_ops P]        the callback list of the serial walk (C13 walk_serial_callbacks);
+   [winit]/[wrun]      the parallel walk LTS of Model/WalkPar.v (C01), [l] any schedule;
+   [end_order s]       the callback positions of the log of s, in the order of their End
+                       events (oldest first);
+   [cascade_pyramid]   the pyramid cascade_images builds (merge.py:108-113): generic of
+                       depth start, or filtered TOAST;
+   [running past q]    in the log [past], the callback of q has started and not ended;
+   [replay]            a store semantics over the event log: the four child files are
+                       read at the Start event, the parent is written at the End event.
+   Merge.v and WalkPar.v use the same positions and [children] (Model/Quadtree.v).
+
+   Remaining modelling assumption (WalkPar.v does not carry the tile store): the
+   callback of p acts on the store as [walk_callback_gen] does, reading only the files
+   of [children p] and writing only the file of p, at instants between its Start and
+   End events.  [walk_par_no_interference], [walk_par_reads_settled] and
+   [replay_eq_cascade] show that under this reading the instants do not matter.
+   ====================================================================================== *)
+From Coq Require Import NArith Arith Permutation.
+From Toasty Require Import Model.Reducer Model.WalkPar Proofs.ReducerP Proofs.CountsP Proofs.WalkParAux
+  Proofs.GlueCascade Model.Mask Model.Merge.
+
+(* every well-formed pyramid with apex at the root whose leaves contain the populated
+   start-level tiles, every par >= 1, pcap >= 1, every schedule that reaches DReturned:
+   the End order is a rearrangement of the serial callback list, both are valid orders
+   for the cascade, and the two cascades leave the same files with the same contents *)
+Theorem cascade_parallel_eq_serial :
+  forall (u : mode -> pixel -> pixel -> pixel) (dflt : fmt) (k : Z) (orc : pos -> Z -> Z -> pixel)
+         (P : pyr) (st0 : store) (par pcap : nat),
+    wf_pyr P -> apex P = root -> (1 <= par)%nat -> (1 <= pcap)%nat ->
+    upper_levels_empty dflt st0 (depth P) ->
+    (forall q, pn q = depth P -> st0 q dflt <> None -> In q (spec_leaves P)) ->
+    forall s0, winit P par pcap = Some s0 ->
+    forall l : list wact,
+    let s := wrun (fun _ => false) s0 l in
+    d_pc s = DReturned ->
+    walk_serial P = Some (spec_ops P) /\
+    Permutation (end_order s) (spec_ops P) /\
+    valid_order u dflt k orc st0 (depth P) (spec_ops P) /\
+    valid_order u dflt k orc st0 (depth P) (end_order s) /\
+    forall s_ser s_par,
+      cascade_gen u dflt k orc st0 (spec_ops P) = Some s_ser ->
+      cascade_gen u dflt k orc st0 (end_order s) = Some s_par ->
+      forall p f, s_ser p f = s_par p f.
+Proof. exact cascade_parallel_eq_serial_thm. Qed.
+Print Assumptions cascade_parallel_eq_serial.
+
+(* cascade_images as called, on a well-formed store: without a tile filter the start
+   level holds files at valid positions only; with one, at leaves the filter reaches.
+   Both cascades are defined, agree, and give the specification pyramid of cascade_spec *)
+Theorem cascade_images_parallel_eq_serial :
+  forall (u : mode -> pixel -> pixel -> pixel) (dflt : fmt) (k : Z) (orc : pos -> Z -> Z -> pixel)
+         (bm : mode) (tile_filter : option (pos -> bool)) (start : nat) (st0 : store) (par pcap : nat),
+    let P := cascade_pyramid tile_filter start in
+    0 < k -> maskable bm = bm -> storable dflt bm -> good_store dflt k bm st0 ->
+    (1 <= par)%nat -> (1 <= pcap)%nat ->
+    upper_levels_empty dflt st0 start ->
+    (forall q, pn q = start -> st0 q dflt <> None ->
+       match tile_filter with None => valid q = true | Some _ => In q (spec_leaves P) end) ->
+    forall s0, winit P par pcap = Some s0 ->
+    forall l : list wact,
+    let s := wrun (fun _ => false) s0 l in
+    d_pc s = DReturned ->
+    exists s_ser s_par,
+      walk_serial P = Some (spec_ops P) /\
+      cascade_gen u dflt k orc st0 (spec_ops P) = Some s_ser /\
+      cascade_gen u dflt k orc st0 (end_order s) = Some s_par /\
+      (forall p f, s_ser p f = s_par p f) /\
+      (forall p, (pn p < start)%nat ->
+         s_par p dflt = pyramid_spec u dflt k orc (fun q => st0 q dflt) (start - pn p) p) /\
+      (forall p, (start <= pn p)%nat -> s_par p dflt = st0 p dflt) /\
+      (forall p f, fmt_eqb f dflt = false -> s_par p f = st0 p f).
+Proof. exact cascade_images_parallel_eq_serial_thm. Qed.
+Print Assumptions cascade_images_parallel_eq_serial.
+
+(* every reachable state (returned or not): when the callback of p starts, a callback q
+   that is in progress is a different tile and neither is a child of the other — no
+   callback writes a file that a concurrently running callback reads or writes *)
+Theorem walk_par_no_interference :
+  forall P par pcap, wf_pyr P -> (1 <= par)%nat -> (1 <= pcap)%nat ->
+  forall s0, winit P par pcap = Some s0 ->
+  forall (l : list wact) l1 p w l2 q,
+    cblog (wrun (fun _ => false) s0 l) = l1 ++ (false, p, w) :: l2 ->
+    running l2 q ->
+    q <> p /\ ~ In q (children p) /\ ~ In p (children q).
+Proof. exact walk_par_no_interference_thm. Qed.
+Print Assumptions walk_par_no_interference.
+
+(* when the callback of p starts, a child that the walk writes at all has been written
+   (its End lies in the past) and is not written again; any other child is never
+   touched by the walk *)
+Theorem walk_par_reads_settled :
+  forall P par pcap, wf_pyr P -> (1 <= par)%nat -> (1 <= pcap)%nat ->
+  forall s0, winit P par pcap = Some s0 ->
+  forall (l : list wact) l1 p w l2 c,
+    cblog (wrun (fun _ => false) s0 l) = l1 ++ (false, p, w) :: l2 ->
+    In c (children p) ->
+    (In c (spec_ops P) -> In c (ends l2) /\ ~ In c (ends l1)) /\
+    (~ In c (spec_ops P) ->
+       ~ In c (starts (cblog (wrun (fun _ => false) s0 l))) /\
+       ~ In c (ends (cblog (wrun (fun _ => false) s0 l)))).
+Proof. exact walk_par_reads_settled_thm. Qed.
+Print Assumptions walk_par_reads_settled.
+
+(* reading the children at the Start event and writing the parent at the End event
+   (the two extreme instants) gives, in every reachable state and for every store, the
+   store of the atomic cascade over the End order *)
+Theorem replay_eq_cascade :
+  forall (u : mode -> pixel -> pixel -> pixel) (dflt : fmt) (k : Z) (orc : pos -> Z -> Z -> pixel)
+         (st0 : store) P par pcap, wf_pyr P -> (1 <= par)%nat -> (1 <= pcap)%nat ->
+  forall s0, winit P par pcap = Some s0 ->
+  forall l : list wact,
+  let s := wrun (fun _ => false) s0 l in
+  option_map fst (replay u dflt k orc st0 (rev (cblog s))) = cascade_gen u dflt k orc st0 (end_order s).
+Proof. exact replay_eq_cascade_thm. Qed.
+Print Assumptions replay_eq_cascade.
+
+(* the hypotheses are satisfiable and the End order can differ from the serial order:
+   generic pyramid of depth 2, two workers, pipe capacity 1, one populated leaf; the
+   callbacks of (1,0,0) and (1,1,0) overlap and end in the opposite order *)
+Example cascade_parallel_nonvacuous :
+  wf_pyr (cascade_pyramid None 2) /\ apex (cascade_pyramid None 2) = root /\
+  upper_levels_empty Fits glue_ex_st0 2 /\
+  (forall q, pn q = 2%nat -> glue_ex_st0 q Fits <> None -> valid q = true) /\
+  spec_ops (cascade_pyramid None 2) = [mkPos 1 0%N 0%N; mkPos 1 1%N 0%N; mkPos 1 0%N 1%N; mkPos 1 1%N 1%N; root] /\
+  exists s0, winit (cascade_pyramid None 2) 2 1 = Some s0 /\
+    let s := wrun (fun _ => false) s0 glue_ex_schedule in
+    d_pc s = DReturned /\
+    end_order s = [mkPos 1 1%N 0%N; mkPos 1 0%N 0%N; mkPos 1 0%N 1%N; mkPos 1 1%N 1%N; root].
+Proof.
+  split; [exact (proj1 (cascade_pyramid_wf None 2))|]. split; [reflexivity|].
+  split; [exact (proj1 glue_ex_hyps)|]. split; [exact (proj2 glue_ex_hyps)|].
+  split; [vm_compute; reflexivity|]. eexists. split; [vm_compute; reflexivity|]. vm_compute. auto.
+Qed.
